@@ -965,8 +965,12 @@ where
         });
         if longitudinal.abs() > std::f64::EPSILON {
             (0..nvars).for_each(|var| {
-                qmc.make_interaction(vec![longitudinal, 0., 0., -longitudinal], vec![var])
-                    .unwrap()
+                // <s|h sz|s> on the diagonal, shifted to be non-negative (offset recorded).
+                qmc.make_interaction_and_offset(
+                    vec![-longitudinal, 0., 0., longitudinal],
+                    vec![var],
+                )
+                .unwrap()
             });
         }
         qmc.increase_cutoff_to(self.cutoff);
